@@ -47,8 +47,12 @@ func Hist(ops []Op) string {
 	return s
 }
 
-// Users are the accounts histories act with. Index 0..9 = mock users, 10..12 = pillar owner keys 1..3.
-var Users = []*wallet.KeyPair{g.User1, g.User2, g.User3, g.User4, g.User5, g.User6, g.User7, g.User8, g.User9, g.User10, g.Pillar1, g.Pillar2, g.Pillar3}
+// Users are the accounts histories act with. Only User1..5 and Pillar1..8 hold balances (ZNN and QSR) and fused plasma
+// in the mock genesis; User6..10 are empty accounts without plasma (useful as pure receivers).
+// Index 0..4 = User1..5, 5..9 = Pillar4..8 (funded keys that are not registered pillars), 10..12 = Pillar1..3 (the
+// registered, producing pillars), 13..17 = User6..10 (empty).
+var Users = []*wallet.KeyPair{g.User1, g.User2, g.User3, g.User4, g.User5, g.Pillar4, g.Pillar5, g.Pillar6, g.Pillar7, g.Pillar8,
+	g.Pillar1, g.Pillar2, g.Pillar3, g.User6, g.User7, g.User8, g.User9, g.User10}
 
 var Tokens = []types.ZenonTokenStandard{types.ZnnTokenStandard, types.QsrTokenStandard}
 
